@@ -12,7 +12,9 @@ Inductive wpkt := WPkt (planned : bool) (idx : Z) (frames : list (Z * Z)) (ping 
 (* builder terms as the harness prints them: SBRandom carries parameter lists *)
 Inductive sbterm := SBPass | SBFrames (qfs : list frame) | SBRandom (specs : list (list Z)) | SBFlight.
 
-Inductive case := WireCase (sb : sbterm) (hello : string) (pkts : list wpkt).
+Inductive case :=
+| WireCase (sb : sbterm) (hello : string) (pkts : list wpkt)
+| DialCase (specs : list (list Z)) (cls : Z).   (* what UTransport.Dial said about a randomizing builder: 0 = not refused *)
 
 Definition rf_of (l : list Z) : rf :=
   match l with
@@ -54,6 +56,14 @@ Fixpoint first_bad (i : nat) (sb : sbuilder) (hello : list Z) (ps : list wpkt) :
   end.
 
 Definition model_obs (c : case) : option nat :=
-  match c with WireCase sb h ps => first_bad 0 (sb_of sb) (hx h) ps end.
+  match c with
+  | WireCase sb h ps => first_bad 0 (sb_of sb) (hx h) ps
+  | DialCase ss cls =>
+    match dial_check (OnWire.SBRandom (map rf_of ss)) with
+    | Ok _ => if cls =? 0 then None else Some 0%nat
+    | Err c => if cls =? c then None else Some 0%nat
+    | Panic => Some 0%nat
+    end
+  end.
 
 Definition check_case (c : case) : bool := match model_obs c with None => true | Some _ => false end.
